@@ -68,6 +68,41 @@ fn run_prog(ctx: &Ctx, spin: u32, logcalls: bool) -> Out {
         "deque" => shapes::run_deque(&shape, ctx, exec::items_of(p).into_iter().collect()),
         "list" => shapes::run_list(&shape, ctx, exec::items_of(p).into_iter().collect()),
         "btree" => shapes::run_btree(&shape, ctx, exec::items_of(p).into_iter().collect()),
+        "vecadv" => {
+            use orx_concurrent_iter::{ConcurrentIterX, IntoConcurrentIter};
+            let it = exec::items_of(p).into_con_iter();
+            for _ in 0..p.adv {
+                drop(it.next());
+            }
+            shapes::run_vecadv(&shape, ctx, it)
+        }
+        "dequeref" => {
+            // a ring buffer whose contents wrap around the end of its allocation
+            let items = exec::items_of(p);
+            let n = items.len();
+            let mut d: std::collections::VecDeque<E> = std::collections::VecDeque::with_capacity(n.max(1));
+            let cap = d.capacity();
+            let tail = n / 2;
+            let lead = cap - (n - tail);
+            for _ in 0..lead {
+                d.push_back(E::new(999_998, 0));
+            }
+            let mut it = items.into_iter();
+            for _ in 0..(n - tail) {
+                d.push_back(it.next().expect("item"));
+            }
+            for _ in 0..lead {
+                drop(d.pop_front());
+            }
+            for x in it {
+                d.push_back(x);
+            }
+            shapes::run_dequeref(&shape, ctx, &d)
+        }
+        "btreeref" => {
+            let b: std::collections::BTreeSet<E> = exec::items_of(p).into_iter().collect();
+            shapes::run_btreeref(&shape, ctx, &b)
+        }
         other => panic!("unknown source {}", other),
     }
 }
